@@ -803,9 +803,23 @@ func Regex(ctx *context.Context, left, right value.Value) (value.Value, error) {
 	}
 }
 
+// matchesAcl reports whether the ip matches the ACL.
+// The most specific entry (longest prefix) which contains the ip decides the result:
+// the ip matches unless that entry is negated, independent of entry order.
+// Entries without mask designate a single host (/32 for IPv4, /128 for IPv6).
 func matchesAcl(acl value.Acl, ip net.IP) (bool, error) {
+	var matched bool
+	var longest int64 = -1
+
 	for _, entry := range acl.Value.CIDRs {
-		var mask int64 = 32
+		addr := net.ParseIP(entry.IP.Value)
+		if addr == nil {
+			return false, fmt.Errorf("failed to parse IP %s", entry.IP.Value)
+		}
+		var mask int64 = 128
+		if addr.To4() != nil {
+			mask = 32
+		}
 		if entry.Mask != nil {
 			mask = entry.Mask.Value
 		}
@@ -815,13 +829,20 @@ func matchesAcl(acl value.Acl, ip net.IP) (bool, error) {
 		if err != nil {
 			return false, fmt.Errorf("failed to parse CIDR %s", cidr)
 		}
-		if ipnet.Contains(ip) {
-			return true, nil
-		} else if entry.Inverse != nil && entry.Inverse.Value {
-			return true, nil
+		if !ipnet.Contains(ip) {
+			continue
+		}
+		inverse := entry.Inverse != nil && entry.Inverse.Value
+		switch {
+		case mask > longest:
+			longest = mask
+			matched = !inverse
+		case mask == longest && inverse:
+			// the same range is listed twice, negation wins regardless of order
+			matched = false
 		}
 	}
-	return false, nil
+	return matched, nil
 }
 
 func NotRegex(ctx *context.Context, left, right value.Value) (value.Value, error) {
